@@ -921,6 +921,25 @@ func setAndReturnBodyLimitInterruption(tx *Transaction, status int) (*types.Inte
 	return tx.interruption, 0, nil
 }
 
+// requestBodyLimitAction returns the request body limit action in force for this transaction.
+// DetectionOnly never disrupts a transaction, therefore Reject is handled as ProcessPartial
+// (NewWAF enforces the same for a WAF configured in DetectionOnly; this also covers a switch
+// to DetectionOnly by ctl:ruleEngine).
+func (tx *Transaction) requestBodyLimitAction() types.BodyLimitAction {
+	if tx.RuleEngine == types.RuleEngineDetectionOnly {
+		return types.BodyLimitActionProcessPartial
+	}
+	return tx.WAF.RequestBodyLimitAction
+}
+
+// responseBodyLimitAction is the response side of requestBodyLimitAction.
+func (tx *Transaction) responseBodyLimitAction() types.BodyLimitAction {
+	if tx.RuleEngine == types.RuleEngineDetectionOnly {
+		return types.BodyLimitActionProcessPartial
+	}
+	return tx.WAF.ResponseBodyLimitAction
+}
+
 // WriteRequestBody writes bytes from a slice of bytes into the request body,
 // it returns an interruption if the writing bytes go beyond the request body limit.
 // It won't copy the bytes if the body access isn't accessible.
@@ -937,11 +956,11 @@ func (tx *Transaction) WriteRequestBody(b []byte) (*types.Interruption, int, err
 	if tx.RequestBodyLimit == tx.requestBodyBuffer.length {
 		// tx.RequestBodyLimit will never be zero so if this happened, we have an
 		// interruption (that has been previously raised, but ignored by the connector) for sure.
-		if tx.WAF.RequestBodyLimitAction == types.BodyLimitActionReject {
+		if tx.requestBodyLimitAction() == types.BodyLimitActionReject {
 			return tx.interruption, 0, nil
 		}
 
-		if tx.WAF.RequestBodyLimitAction == types.BodyLimitActionProcessPartial {
+		if tx.requestBodyLimitAction() == types.BodyLimitActionProcessPartial {
 			return nil, 0, nil
 		}
 	}
@@ -959,12 +978,12 @@ func (tx *Transaction) WriteRequestBody(b []byte) (*types.Interruption, int, err
 
 	if tx.requestBodyBuffer.length+writingBytes >= tx.RequestBodyLimit {
 		tx.variables.inboundDataError.Set("1")
-		if tx.WAF.RequestBodyLimitAction == types.BodyLimitActionReject {
+		if tx.requestBodyLimitAction() == types.BodyLimitActionReject {
 			// We interrupt this transaction in case RequestBodyLimitAction is Reject
 			return setAndReturnBodyLimitInterruption(tx, 413)
 		}
 
-		if tx.WAF.RequestBodyLimitAction == types.BodyLimitActionProcessPartial {
+		if tx.requestBodyLimitAction() == types.BodyLimitActionProcessPartial {
 			writingBytes = tx.RequestBodyLimit - tx.requestBodyBuffer.length
 			runProcessRequestBody = true
 		}
@@ -1003,11 +1022,11 @@ func (tx *Transaction) ReadRequestBodyFrom(r io.Reader) (*types.Interruption, in
 	if tx.RequestBodyLimit == tx.requestBodyBuffer.length {
 		// tx.RequestBodyLimit will never be zero so if this happened, we have an
 		// interruption (that has been previously raised, but ignored by the connector) for sure.
-		if tx.WAF.RequestBodyLimitAction == types.BodyLimitActionReject {
+		if tx.requestBodyLimitAction() == types.BodyLimitActionReject {
 			return tx.interruption, 0, nil
 		}
 
-		if tx.WAF.RequestBodyLimitAction == types.BodyLimitActionProcessPartial {
+		if tx.requestBodyLimitAction() == types.BodyLimitActionProcessPartial {
 			return nil, 0, nil
 		}
 	}
@@ -1026,11 +1045,11 @@ func (tx *Transaction) ReadRequestBodyFrom(r io.Reader) (*types.Interruption, in
 		}
 		if tx.requestBodyBuffer.length+writingBytes >= tx.RequestBodyLimit {
 			tx.variables.inboundDataError.Set("1")
-			if tx.WAF.RequestBodyLimitAction == types.BodyLimitActionReject {
+			if tx.requestBodyLimitAction() == types.BodyLimitActionReject {
 				return setAndReturnBodyLimitInterruption(tx, 413)
 			}
 
-			if tx.WAF.RequestBodyLimitAction == types.BodyLimitActionProcessPartial {
+			if tx.requestBodyLimitAction() == types.BodyLimitActionProcessPartial {
 				writingBytes = tx.RequestBodyLimit - tx.requestBodyBuffer.length
 				runProcessRequestBody = true
 			}
@@ -1046,11 +1065,11 @@ func (tx *Transaction) ReadRequestBodyFrom(r io.Reader) (*types.Interruption, in
 
 	if tx.requestBodyBuffer.length == tx.RequestBodyLimit {
 		tx.variables.inboundDataError.Set("1")
-		if tx.WAF.RequestBodyLimitAction == types.BodyLimitActionReject {
+		if tx.requestBodyLimitAction() == types.BodyLimitActionReject {
 			return setAndReturnBodyLimitInterruption(tx, 413)
 		}
 
-		if tx.WAF.RequestBodyLimitAction == types.BodyLimitActionProcessPartial {
+		if tx.requestBodyLimitAction() == types.BodyLimitActionProcessPartial {
 			runProcessRequestBody = true
 		}
 	}
@@ -1218,11 +1237,11 @@ func (tx *Transaction) WriteResponseBody(b []byte) (*types.Interruption, int, er
 	if tx.ResponseBodyLimit == tx.responseBodyBuffer.length {
 		// tx.ResponseBodyLimit will never be zero so if this happened, we have an
 		// interruption for sure.
-		if tx.WAF.ResponseBodyLimitAction == types.BodyLimitActionReject {
+		if tx.responseBodyLimitAction() == types.BodyLimitActionReject {
 			return tx.interruption, 0, nil
 		}
 
-		if tx.WAF.ResponseBodyLimitAction == types.BodyLimitActionProcessPartial {
+		if tx.responseBodyLimitAction() == types.BodyLimitActionProcessPartial {
 			return nil, 0, nil
 		}
 	}
@@ -1233,12 +1252,12 @@ func (tx *Transaction) WriteResponseBody(b []byte) (*types.Interruption, int, er
 	)
 	if tx.responseBodyBuffer.length+writingBytes >= tx.ResponseBodyLimit {
 		tx.variables.outboundDataError.Set("1")
-		if tx.WAF.ResponseBodyLimitAction == types.BodyLimitActionReject {
+		if tx.responseBodyLimitAction() == types.BodyLimitActionReject {
 			// We interrupt this transaction in case ResponseBodyLimitAction is Reject
 			return setAndReturnBodyLimitInterruption(tx, 500)
 		}
 
-		if tx.WAF.ResponseBodyLimitAction == types.BodyLimitActionProcessPartial {
+		if tx.responseBodyLimitAction() == types.BodyLimitActionProcessPartial {
 			writingBytes = tx.ResponseBodyLimit - tx.responseBodyBuffer.length
 			runProcessResponseBody = true
 		}
@@ -1268,11 +1287,11 @@ func (tx *Transaction) ReadResponseBodyFrom(r io.Reader) (*types.Interruption, i
 	}
 
 	if tx.ResponseBodyLimit == tx.responseBodyBuffer.length {
-		if tx.WAF.ResponseBodyLimitAction == types.BodyLimitActionReject {
+		if tx.responseBodyLimitAction() == types.BodyLimitActionReject {
 			return tx.interruption, 0, nil
 		}
 
-		if tx.WAF.ResponseBodyLimitAction == types.BodyLimitActionProcessPartial {
+		if tx.responseBodyLimitAction() == types.BodyLimitActionProcessPartial {
 			return nil, 0, nil
 		}
 	}
@@ -1285,11 +1304,11 @@ func (tx *Transaction) ReadResponseBodyFrom(r io.Reader) (*types.Interruption, i
 		writingBytes = int64(l.Len())
 		if tx.responseBodyBuffer.length+writingBytes >= tx.ResponseBodyLimit {
 			tx.variables.outboundDataError.Set("1")
-			if tx.WAF.ResponseBodyLimitAction == types.BodyLimitActionReject {
+			if tx.responseBodyLimitAction() == types.BodyLimitActionReject {
 				return setAndReturnBodyLimitInterruption(tx, 500)
 			}
 
-			if tx.WAF.ResponseBodyLimitAction == types.BodyLimitActionProcessPartial {
+			if tx.responseBodyLimitAction() == types.BodyLimitActionProcessPartial {
 				writingBytes = tx.ResponseBodyLimit - tx.responseBodyBuffer.length
 				runProcessResponseBody = true
 			}
@@ -1305,11 +1324,11 @@ func (tx *Transaction) ReadResponseBodyFrom(r io.Reader) (*types.Interruption, i
 
 	if tx.responseBodyBuffer.length == tx.ResponseBodyLimit {
 		tx.variables.outboundDataError.Set("1")
-		if tx.WAF.ResponseBodyLimitAction == types.BodyLimitActionReject {
+		if tx.responseBodyLimitAction() == types.BodyLimitActionReject {
 			return setAndReturnBodyLimitInterruption(tx, 500)
 		}
 
-		if tx.WAF.ResponseBodyLimitAction == types.BodyLimitActionProcessPartial {
+		if tx.responseBodyLimitAction() == types.BodyLimitActionProcessPartial {
 			runProcessResponseBody = true
 		}
 	}
